@@ -37,7 +37,7 @@ ASSUMPTIONS = [
     "gradient exactness is demanded for linear functions only (as stated); for general multilinear functions adaptive == static is demanded",
 ]
 PROBES = ["dim1", "dim2", "dim3", "point_on_vertex", "point_on_grid_line", "point_on_upper_boundary", "point_on_lower_boundary", "batch_revisits_cell",
-          "warm_batch", "partial_batch", "gradient_query", "linear_function", "shifted_base_point", "negative_indices", "query_buffer_reused_in_place", "external_values_mode", "known_vertices_reassigned", "vector_valued_function", "function_defined_on_box_only", "rejected_query_outside_box", "twin_instance_used_in_between"]
+          "warm_batch", "partial_batch", "gradient_query", "linear_function", "shifted_base_point", "negative_indices", "query_buffer_reused_in_place", "external_values_mode", "known_vertices_reassigned", "vector_valued_function", "function_defined_on_box_only", "rejected_query_outside_box", "twin_instance_used_in_between", "long_history"]
 
 
 def make_function(ch, d, linear):
@@ -93,7 +93,8 @@ def run_history_c41(ch, tr: Trace) -> None:
         d = ch.rng(1, 3)
         dyadic = ch.flag()
         linear = ch.flag(1, 3)
-        npt = np.array([ch.rng(2, 5) for _ in range(d)])
+        long_run = ch.flag(1, 40)  # a few long histories on finer tables (hundreds of cached vertices)
+        npt = np.array([ch.rng(2, 5) if not long_run else ch.rng(6, 12) for _ in range(d)])
         if dyadic:
             low = np.array([ch.rng(-16, 8) / 8.0 for _ in range(d)])
             h = np.array([ch.choice([0.125, 0.25, 0.5, 1.0]) for _ in range(d)])
@@ -367,7 +368,9 @@ def run_history_c41(ch, tr: Trace) -> None:
         cache_invariants("queries on another adaptive table")
 
     ops = [Op("interpolate", 5, op_interp, core=True), Op("gradient", 3, op_grad), Op("outside", 1, op_outside, enabled=lambda: guarded), Op("twin_noise", 1, op_twin_noise)]
-    run_history(ch, tr, ops, 3, 16)
+    if long_run:
+        tr.probe("long_history")
+    run_history(ch, tr, ops, 3 if not long_run else 40, 16 if not long_run else 120)
     tr.emit("end", int(adaptive._table._coords.shape[1]))
 
 
